@@ -9,15 +9,28 @@ import os, sys, json, subprocess, fcntl, hashlib
 from . import dump
 
 NATDIFF = os.path.join(dump.VERIF, 'natdiff')
-TARGET = os.path.join(dump.CACHE, 'natdiff-target')
+_tag = hashlib.sha256(dump.REPO.encode()).hexdigest()[:8]
+BUILD = os.path.join(dump.CACHE, 'natdiff-build-' + _tag)
+TARGET = os.path.join(dump.CACHE, 'natdiff-target-' + _tag)
 
 def build(profile='release'):
+    """(re)builds natdiff against the current working tree of the repository (cargo decides what is stale)"""
     os.makedirs(dump.CACHE, exist_ok=True)
-    lock = open(os.path.join(dump.CACHE, '.natdiff.lock'), 'w'); fcntl.flock(lock, fcntl.LOCK_EX)
+    lock = open(os.path.join(dump.CACHE, '.natdiff.lock.' + _tag), 'w'); fcntl.flock(lock, fcntl.LOCK_EX)
     try:
-        env = dict(os.environ); env['CARGO_NET_OFFLINE'] = 'true'; env['CARGO_TARGET_DIR'] = TARGET; env.pop('RUSTFLAGS', None)
+        os.makedirs(os.path.join(BUILD, 'src'), exist_ok=True)
+        src = open(os.path.join(NATDIFF, 'src', 'main.rs')).read()
+        dst = os.path.join(BUILD, 'src', 'main.rs')
+        if not os.path.exists(dst) or open(dst).read() != src: open(dst, 'w').write(src)
+        toml = open(os.path.join(NATDIFF, 'Cargo.toml')).read().replace('path = "/repo"', 'path = "%s"' % dump.REPO)
+        tp = os.path.join(BUILD, 'Cargo.toml')
+        if not os.path.exists(tp) or open(tp).read() != toml: open(tp, 'w').write(toml)
+        lk = os.path.join(BUILD, 'Cargo.lock')
+        if not os.path.exists(lk):
+            import shutil; shutil.copy(os.path.join(NATDIFF, 'Cargo.lock'), lk)
+        env = dict(os.environ); env['CARGO_NET_OFFLINE'] = 'true'; env['CARGO_TARGET_DIR'] = TARGET; env.pop('RUSTFLAGS', None); env['VERIF_DIR'] = dump.VERIF
         cmd = ['cargo', 'build', '--offline', '--quiet'] + (['--release'] if profile == 'release' else [])
-        p = subprocess.run(cmd, cwd=NATDIFF, env=env, stdout=subprocess.PIPE, stderr=subprocess.PIPE)
+        p = subprocess.run(cmd, cwd=BUILD, env=env, stdout=subprocess.PIPE, stderr=subprocess.PIPE)
         if p.returncode != 0:
             sys.stderr.write(p.stderr.decode(errors='replace')[-3000:])
             raise RuntimeError('natdiff build failed')
